@@ -91,6 +91,9 @@ def cases(rng, tier):
                                         ("call", tgt, "stmt", "top")]),
                      ("e1", "fragment", [("acc", 1, 0, "top")])]
         out.append(mk_case(p, "many_functions"))
+    # deep call chains (the chain's bottom is used by the stage at its top, at any depth, and by no other stage)
+    for d, form, tgt in ((66, "let", 0), (70, "cond", "pc"), (130, "let", 0), (40, "stmt", "pc")) + (((260, "let", 0), (33, "fwd", 0)) if tier == "thorough" else ()):
+        out.append(mk_case(W.deep_chain_program(d, form, tgt), "deep_chain"))
     return out
 
 
